@@ -438,6 +438,35 @@ func TestVerif_C13(t *testing.T) {
 		}},
 		sepShape("colon", ":"), sepShape("slash", "/"), sepShape("pipe", "|"), sepShape("space", " "), sepShape("at", "@"),
 	}
+	// Identities that a normalising comparison would equate: letter case
+	// (ASCII and the Unicode simple folds), surrounding whitespace, Unicode
+	// composition, a trailing dot. Domains and principals are opaque,
+	// operator-chosen strings; "Corp" and "corp" are two authenticators.
+	norm := func(label, family string, a, b vfC13Id) shape {
+		return shape{label, family, func(u string) (vfC13Id, vfC13Id) {
+			x, y := a, b
+			// the per-execution tag goes in front of the part that is equal in both
+			if x.domain == y.domain {
+				x.domain, y.domain = u+x.domain, u+y.domain
+			} else {
+				x.principal, y.principal = u+x.principal, u+y.principal
+			}
+			return x, y
+		}}
+	}
+	shapes = append(shapes,
+		norm("domain-Corp-vs-corp", "normalised-domain-case", vfC13Id{domain: "Corp", principal: "alice"}, vfC13Id{domain: "corp", principal: "alice"}),
+		norm("domain-BEARER-vs-Bearer", "normalised-domain-case", vfC13Id{domain: "BEARER", principal: "alice"}, vfC13Id{domain: "Bearer", principal: "alice"}),
+		norm("domain-kelvin-sign-vs-k", "normalised-domain-case", vfC13Id{domain: "\u212aerberos", principal: "alice"}, vfC13Id{domain: "kerberos", principal: "alice"}),
+		norm("principal-Alice-vs-alice", "normalised-principal-case", vfC13Id{domain: "corp", principal: "Alice@Example.COM"}, vfC13Id{domain: "corp", principal: "alice@example.com"}),
+		norm("principal-trailing-space", "normalised-whitespace", vfC13Id{domain: "corp", principal: "alice "}, vfC13Id{domain: "corp", principal: "alice"}),
+		norm("principal-leading-space", "normalised-whitespace", vfC13Id{domain: "corp", principal: " alice"}, vfC13Id{domain: "corp", principal: "alice"}),
+		norm("domain-trailing-space", "normalised-whitespace", vfC13Id{domain: "corp ", principal: "alice"}, vfC13Id{domain: "corp", principal: "alice"}),
+		norm("principal-nfc-vs-nfd", "normalised-unicode", vfC13Id{domain: "corp", principal: "caf\u00e9"}, vfC13Id{domain: "corp", principal: "cafe\u0301"}),
+		norm("domain-nfc-vs-nfd", "normalised-unicode", vfC13Id{domain: "caf\u00e9", principal: "alice"}, vfC13Id{domain: "cafe\u0301", principal: "alice"}),
+		norm("principal-trailing-dot", "normalised-trailing-dot", vfC13Id{domain: "corp", principal: "alice.example.com."}, vfC13Id{domain: "corp", principal: "alice.example.com"}),
+		norm("domain-trailing-dot", "normalised-trailing-dot", vfC13Id{domain: "corp.example.", principal: "alice"}, vfC13Id{domain: "corp.example", principal: "alice"}),
+	)
 	// Long identities (SPIFFE ids, service-account names, long OIDC subjects) that
 	// agree everywhere except near one end, or where one is a prefix of the other:
 	// any rendering that is clamped, windowed or length-limited conflates them.
